@@ -11,7 +11,7 @@ from ..spec import kinds
 from .c04 import jdiff, split_known_names
 
 ID = "C15"
-BUDGET = {"quick": (4, 600), "thorough": (16, 8000)}
+BUDGET = {"quick": (4, 2500), "thorough": (16, 25000)}
 TECHNIQUE = "grammar-based mutation fuzzing (Hypothesis; thorough tier also coverage-guided via Atheris) with a must-reject oracle"
 RULE = (
     "Generated: a valid document (tree spec + fills -> toJson(), so the grammar is the library's own output) and one "
